@@ -385,6 +385,18 @@ example : (match exec (init twoReqs)
                 && s.loads.length == 1 && s.cache.isEmpty
     | none => false) = true := by decide
 
+/-- the history searched for by the harness's concurrent probe (`race held`): a load is in flight, a reset runs
+    concurrently, the load finishes with the value fetched before the reset.  Whichever way the load's store and the
+    reset's critical section are ordered, a request that starts afterwards misses on the fast path and its own load
+    fetches again (loader 1), while the old request still gets the old result. -/
+theorem inflight_load_across_reset_is_not_served (ok storeFirst : Bool) :
+    (match exec (init [(k1, 10, false), (k1, 10, true)])
+        ([.check 0, .join 0, .recheck 0] ++ (if storeFirst then [.store 0 ok, .reset] else [.reset, .store 0 ok]) ++
+         [.finish 0, .get 1, .check 1, .join 1, .recheck 1, .store 1 true, .finish 1]) with
+     | some s => answer s 0 == some ⟨0, ok⟩ && answer s 1 == some ⟨1, true⟩ && s.loads.length == 2
+     | none => false) = true := by
+  cases ok <;> cases storeFirst <;> decide
+
 /-- the hypotheses of `no_stale_after_reset` are satisfiable with an answered late request -/
 example : (match exec (init twoReqs) [.get 0, .check 0, .join 0, .recheck 0] with
     | some mid =>
